@@ -411,6 +411,13 @@ func (env Env) evalCmp(x Cmp) Outcome {
 		}
 		return b2o(missing || !eq)
 	}
+	// ordering exists only within S, N and B: an operand of another type may
+	// be rejected outright
+	for _, o := range []operand{l, r} {
+		if o.st == stOK && o.v.T != "S" && o.v.T != "N" && o.v.T != "B" {
+			return OF | OE
+		}
+	}
 	if missing {
 		return OF
 	}
@@ -439,11 +446,16 @@ func (env Env) evalBetween(x Between) Outcome {
 	if v.st == stWeak || lo.st == stWeak || hi.st == stWeak {
 		return OT | OF | OE
 	}
-	if v.st == stMissing {
-		return OF
+	for _, o := range []operand{v, lo, hi} {
+		if o.st == stOK && o.v.T != "S" && o.v.T != "N" && o.v.T != "B" {
+			return OF | OE
+		}
 	}
 	if lo.st == stMissing || hi.st == stMissing {
 		return OF | OE
+	}
+	if v.st == stMissing {
+		return OF
 	}
 	c1, ok1 := CompareScalar(lo.v, v.v)
 	c2, ok2 := CompareScalar(v.v, hi.v)
@@ -543,10 +555,9 @@ func (env Env) evalFunc(x Func) Outcome {
 			}
 			return b2o(bytes.HasPrefix(p.v.B, s.v.B))
 		}
-		if p.v.T == "S" || p.v.T == "B" {
-			return OF | OE
-		}
-		return OF
+		// the attribute has another type: false in DynamoDB as far as this
+		// model knows, but not asserted
+		return OF | OE
 	case "contains":
 		p, o := env.evalOperand(x.Args[0]), env.evalOperand(x.Args[1])
 		if p.st == stErr || o.st == stErr {
